@@ -53,8 +53,8 @@ BOUNDED = {
                       'dates / times / durations as JSON strings of their FEEL text; plus 24 numbers of both signs with small and large magnitudes, reduced-form and exponent-form zeros (bare, in a list, in a context), each compared with its value written out in the harness'},
             {'name': 'http-histories-on-the-real-service', 'script': 'httpdiff.py', 'args': [], 'thorough_args': ['--thorough'],
              'functions': ['dmntk_server::start_server and every handler (actix routing, JSON extraction, the error handler)', 'do_clear / do_add / do_replace / do_remove / do_deploy_definitions', 'do_evaluate / do_evaluate_tck'],
-             'bound': 'the real service on a loopback port: 2 787 request sequences (about 36 000 requests; thorough: base sequences up to length 3) mixing definitions operations over five models, /evaluate and /tck/evaluate, and 15 kinds of '
-                      'malformed request (truncated JSON, missing parameters, invalid base64, invalid UTF-8 inside well-formed XML, truncated XML, unknown model / invocable, a body that is not a context, unknown endpoint) at every position: '
+             'bound': 'the real service on a loopback port: 4 558 request sequences (about 59 000 requests; thorough: base sequences up to length 3) mixing definitions operations over five models, /evaluate and /tck/evaluate, and 26 kinds of '
+                      'malformed request (truncated JSON, missing parameters, invalid base64, invalid UTF-8 inside well-formed XML, truncated XML, unknown model / invocable, a body that is not a context, unknown endpoint, a string or another type where an object is expected, a model name / an xsd text of more than a thousand bytes of two-byte characters from an even and an odd offset - the failure message repeats it -) at every position: '
                       'every response is a well-formed JSON document, failures are in `errors`, successes in `data`, answers equal a reference workspace written out from the property (a rejected or malformed request changes nothing), and the service keeps answering'},
             {'name': 'evaluate-answers-every-digit', 'driver': 'httpvalues', 'args': [],
              'functions': ['post_evaluate / do_evaluate (server.rs) end to end on the real service', 'Value::jsonify'],
@@ -62,7 +62,7 @@ BOUNDED = {
                       'the body of POST /evaluate/{model}/{decision} is, character for character, {"data": <the JSON rendering of the value evaluated directly>}'},
             {'name': 'tck-dto-round-trip', 'driver': 'tck', 'args': [],
              'functions': ['server/src/dto.rs (compiled into the driver from the repository file): TryFrom<&Value> for ValueDto, TryFrom<&ValueDto / &SimpleDto / &Vec<ComponentDto> / &ComponentDto / &ListDto / &Vec<ValueDto>> for WrappedValue', 'serde_json (real)'],
-             'bound': '33 typed texts as a client sends them (every xsd type tag, integers at and beyond the 64-bit ranges, invalid texts: decoded to the FEEL value of the text or rejected, never a panic) and '
+             'bound': '38 typed texts as a client sends them (days-only and months-only durations among them) (every xsd type tag, integers at and beyond the 64-bit ranges, invalid texts: decoded to the FEEL value of the text or rejected, never a panic) and '
                       '1 428 values: 68 scalars of every TCK kind (strings with quotes, backslashes, control and non-ASCII characters; numbers; booleans; null; dates; times with and without offset; date-times; both duration kinds) and the lists / '
                       'contexts built from them to nesting depth 2 (empty, singleton, pairs, names with spaces): value -> DTO -> JSON text -> DTO -> value gives the value back (null messages aside)'}],
 }
